@@ -188,16 +188,19 @@ theorem remaining_read (cfg : Cfg) {p : PState} (db : Db) (hr : isRead p = true)
     split <;> simp [totalOf, PState.remaining]
   case needsAgo id term thr now desc r =>
     simp [pstepT, pstep, pstepG, PState.wf, totalOf, PState.remaining]
-  case uinfoRow id term =>
+  case needs id term thr now =>
     simp only [pstepT, pstep, pstepG, PState.wf, Bool.not_true, Bool.false_eq_true, ↓reduceIte]
     split <;> simp [totalOf, PState.remaining]
-  case uinfoAgo id term r =>
+  case uinfo id term =>
     simp [pstepT, pstep, pstepG, PState.wf, totalOf, PState.remaining]
   case info id =>
     simp only [pstepT, pstep, pstepG, PState.wf, Bool.not_true, Bool.false_eq_true, ↓reduceIte]
     split <;> simp [totalOf, PState.remaining]
   case count todo u acc =>
-    cases todo <;> simp [pstepT, pstep, pstepG, PState.wf, totalOf, PState.remaining]
+    match todo with
+    | [] => simp [pstepT, pstep, pstepG, PState.wf, totalOf, PState.remaining]
+    | [s] => simp [pstepT, pstep, pstepG, PState.wf, totalOf, PState.remaining]
+    | s :: s' :: todo => simp [pstepT, pstep, pstepG, PState.wf, totalOf, PState.remaining]
   case finished r => simp [PState.remaining]
 
 theorem remaining_step (cfg : Cfg) (p : PState) (db : Db) :
